@@ -61,6 +61,9 @@ func init() {
 		if err != nil {
 			panic(unsupported{"regexp translation: " + err.Error()})
 		}
+		if in.cfg.FoldRegex {
+			return &sym{k: sBool, t: in.solver.DefineMemb(in.strOf(a[1]), rl)}
+		}
 		return in.mk(sBool, 0, "(str.in_re "+in.strOf(a[1])+" "+rl+")")
 	}
 	reg("(*regexp.Regexp).MatchString", match)
@@ -114,33 +117,90 @@ func regLanFor(pattern string) (string, error) {
 		return "", err
 	}
 	re = re.Simplify()
-	body, aStart, aEnd, err := regTop(re)
-	if err != nil {
-		return "", err
+	var alts []string
+	for _, seq := range regSeqs(re) {
+		body, aStart, aEnd, err := regTop(seq)
+		if err != nil {
+			return "", err
+		}
+		all := "(re.* re.allchar)"
+		parts := []string{}
+		if !aStart {
+			parts = append(parts, all)
+		}
+		parts = append(parts, body)
+		if !aEnd {
+			parts = append(parts, all)
+		}
+		o := parts[0]
+		if len(parts) > 1 {
+			o = "(re.++ " + strings.Join(parts, " ") + ")"
+		}
+		alts = append(alts, o)
 	}
-	all := "(re.* re.allchar)"
-	parts := []string{}
-	if !aStart {
-		parts = append(parts, all)
-	}
-	parts = append(parts, body)
-	if !aEnd {
-		parts = append(parts, all)
-	}
-	out := parts[0]
-	if len(parts) > 1 {
-		out = "(re.++ " + strings.Join(parts, " ") + ")"
+	out := alts[0]
+	if len(alts) > 1 {
+		out = "(re.union " + strings.Join(alts, " ") + ")"
 	}
 	regLanCache.Store(pattern, out)
 	return out, nil
 }
 
-// regTop handles ^ and $ at the two ends of the top-level concatenation.
-func regTop(re *syntax.Regexp) (string, bool, bool, error) {
-	subs := []*syntax.Regexp{re}
-	if re.Op == syntax.OpConcat {
-		subs = re.Sub
+// regHasAnchor reports whether ^ or $ occurs anywhere in re.
+func regHasAnchor(re *syntax.Regexp) bool {
+	if re.Op == syntax.OpBeginText || re.Op == syntax.OpEndText {
+		return true
 	}
+	for _, s := range re.Sub {
+		if regHasAnchor(s) {
+			return true
+		}
+	}
+	return false
+}
+
+// regSeqs writes re as a union of top-level concatenations in which ^ and $ occur only at the
+// two ends: an alternation (possibly inside a group) that is the first or last factor and holds an
+// anchor - `(?:^|;)rest` - is distributed over the rest. Anchors elsewhere stay unsupported.
+func regSeqs(re *syntax.Regexp) [][]*syntax.Regexp {
+	flat := func(r *syntax.Regexp) []*syntax.Regexp {
+		if r.Op == syntax.OpConcat {
+			return r.Sub
+		}
+		return []*syntax.Regexp{r}
+	}
+	unwrap := func(r *syntax.Regexp) *syntax.Regexp {
+		for r.Op == syntax.OpCapture {
+			r = r.Sub[0]
+		}
+		return r
+	}
+	work := [][]*syntax.Regexp{flat(re)}
+	var done [][]*syntax.Regexp
+	for len(work) > 0 && len(work)+len(done) < 64 {
+		seq := work[0]
+		work = work[1:]
+		if n := len(seq); n > 0 {
+			if f := unwrap(seq[0]); f.Op == syntax.OpAlternate && regHasAnchor(f) {
+				for _, a := range f.Sub {
+					work = append(work, append(append([]*syntax.Regexp{}, flat(a)...), seq[1:]...))
+				}
+				continue
+			}
+			if l := unwrap(seq[n-1]); n > 1 && l.Op == syntax.OpAlternate && regHasAnchor(l) {
+				for _, a := range l.Sub {
+					work = append(work, append(append([]*syntax.Regexp{}, seq[:n-1]...), flat(a)...))
+				}
+				continue
+			}
+		}
+		done = append(done, seq)
+	}
+	return append(done, work...)
+}
+
+// regTop handles ^ and $ at the two ends of a top-level concatenation.
+func regTop(subs []*syntax.Regexp) (string, bool, bool, error) {
 	aStart, aEnd := false, false
 	for len(subs) > 0 && subs[0].Op == syntax.OpBeginText {
 		aStart = true
@@ -250,3 +310,6 @@ func regTerm(re *syntax.Regexp) (string, error) {
 	}
 	return "", fmt.Errorf("unsupported regexp construct %s in %q", re.Op, re.String())
 }
+
+// RegLanFor exposes the translation (cmd/regdump).
+func RegLanFor(pattern string) (string, error) { return regLanFor(pattern) }
